@@ -116,6 +116,10 @@ func vBytes(name string, n int) []byte {
 	return b
 }
 
+// vHugeBytes: a zero slice of n bytes; the engine backs it by a virtual object
+// (nothing materialised), natively it is a real allocation.
+func vHugeBytes(n int) []byte { return make([]byte, n) }
+
 func vAssume(b bool) {
 	if !b {
 		panic(vAssumeFailed{})
